@@ -46,7 +46,11 @@ package prunner
 //@ pure RIreg(r *PipelineRunner) bool = forall p string :: all(r.jobsByPipeline[p], registered, r)
 //@ pure RIwf(r *PipelineRunner) bool = forall p string :: wf(r.jobsByPipeline[p]) && wf(r.waitListByPipeline[p])
 //@ pure RIdist(r *PipelineRunner) bool = forall p string :: distinctElems(r.jobsByPipeline[p])
-//@ pure RI(r *PipelineRunner) bool = RIbase(r) && RIids(r) && RIwf(r) && RIjobs(r) && RIwl(r) && RIsep(r) && RIreg(r) && RIdist(r)
+// time stamps of jobs accepted by this process are ordered along the (monotone) ghost clock
+//@ ghost $accepted array Bool
+//@ pure timesOrdered(j *PipelineJob) bool = j.Created <= $clock && (j.Start != nil ==> j.Created <= *j.Start && *j.Start <= $clock) && (j.End != nil ==> *j.End <= $clock) && (j.End != nil ==> j.Start != nil && *j.Start <= *j.End)
+//@ pure RItime(r *PipelineRunner) bool = forall id uuid.UUID :: (id in r.jobsByID) && $accepted[r.jobsByID[id]] ==> timesOrdered(r.jobsByID[id])
+//@ pure RI(r *PipelineRunner) bool = RIbase(r) && RIids(r) && RIwf(r) && RIjobs(r) && RIwl(r) && RIsep(r) && RIreg(r) && RIdist(r) && RItime(r)
 
 // ---------------------------------------------------------------------------------------
 //@ func (*PipelineJob).isRunning
@@ -348,6 +352,7 @@ package prunner
 //@   ensures  [C11.persist] res1 == nil ==> $persist
 //@   ensures  [T] Tjobs()
 //@   ensures  [defs] r.defs == old(r.defs)
+//@   at after mapupdate#1: ghost $accepted[job] := true
 //@   at after mapupdate#2: assert [distNew] all(old(r.jobsByPipeline[pipeline]), neq, job)
 //@   at after mapupdate#2: assert [distOld] distinctElems(old(r.jobsByPipeline[pipeline]))
 //@   at after mapupdate#2: assert [distInit] distinctElems(r.jobsByPipeline[pipeline][:len(r.jobsByPipeline[pipeline])-1])
@@ -577,6 +582,8 @@ package prunner
 // Only these functions contain a store to the life-cycle fields of a job (checked by a scan of every
 // store instruction of the package; bridge B2 relies on it).
 //@ writers PipelineJob.Start: (*PipelineRunner).startJob, buildJobFromPersistedJob
+//@ writers PipelineJob.End: (*PipelineRunner).JobCompleted, buildJobFromPersistedJob
+//@ writers PipelineJob.Created: (*PipelineRunner).ScheduleAsync, buildJobFromPersistedJob
 //@ writers PipelineJob.Completed: (*PipelineRunner).JobCompleted, buildJobFromPersistedJob
 //@ writers PipelineJob.Canceled: (*PipelineJob).markAsCanceled, (*PipelineRunner).ScheduleAsync, (*PipelineRunner).startJob, (*PipelineRunner).JobCompleted, (*PipelineRunner).initialLoadFromStore, (*PipelineRunner).Shutdown, buildJobFromPersistedJob
 //@ writers PipelineJob.Tasks: (*PipelineRunner).ScheduleAsync, buildJobFromPersistedJob
@@ -602,7 +609,7 @@ package prunner
 //@ property C11: prunner.*/ensures[C11.*] prunner.*/assert[C11.*] prunner.(*PipelineRunner).Shutdown/loop* prunner.(*PipelineRunner).Shutdown/monitor[RI] prunner.(*PipelineRunner).Shutdown/ensures[T] prunner.(*PipelineRunner).Shutdown$1/* prunner/writers[PipelineRunner.isShuttingDown] prunner.*/guarantee[gate] prunner.(*PipelineRunner).Shutdown/guarantee[T] prunner/interference[captured] prunner.(*PipelineRunner).Shutdown$1/frame*
 //@ property C12: prunner.*/ensures[C12.*] prunner.(*PipelineRunner).SaveToStore/* prunner.removeJobFromList/* prunner.byCreationTimeDesc/ensures* prunner.*/assert[dist*] prunner.*/monitor[RI] prunner.(*PipelineRunner).determineIfJobShouldBeRemoved/* prunner.*/assert[wl*] prunner.(*PipelineRunner).initialLoadFromStore/*[C10.noLoss]
 //@ property C13: prunner.*/lock[read] prunner.*/lock[write] prunner.*/lockproto[*] prunner.*/call-pre[*.lockmode]* prunner.*/call-pre[*.guard]* prunner.*/call-pre[*.empty]* prunner.*/ensures[unpublished] prunner/interference[captured] prunner.*/guarantee[*]
-//@ property C15: prunner.*/ensures[C15.*] prunner.(*PipelineRunner).resolveScheduleAction/ensures[range] prunner.(*PipelineRunner).isRunning/loop* prunner.(*PipelineRunner).ReadJob/* prunner.(*PipelineRunner).IterateJobs/ensures* prunner.(*PipelineRunner).ListPipelines/ensures* prunner.(*PipelineRunner).ListPipelines/loop* prunner.(*PipelineJob).isRunning/ensures*
+//@ property C15: prunner.*/ensures[C15.*] prunner.(*PipelineRunner).resolveScheduleAction/ensures[range] prunner.(*PipelineRunner).isRunning/loop* prunner.(*PipelineRunner).ReadJob/* prunner.(*PipelineRunner).IterateJobs/ensures* prunner.(*PipelineRunner).ListPipelines/ensures* prunner.(*PipelineRunner).ListPipelines/loop* prunner.(*PipelineJob).isRunning/ensures* prunner.*/monitor[RI] prunner.*/ensures[ri] prunner.*/call-pre[*.ri]* prunner/writers[PipelineJob.End] prunner/writers[PipelineJob.Created] prunner/writers[PipelineJob.Start]
 //@ property C08: prunner.*/assert[C08.*] prunner.(*PipelineRunner).JobCompleted/ensures[C04.verdict] prunner.*/assert[C04.cancelMeansError] prunner.(jobTasks).ByName/*
 //@ property C16: prunner.*/ensures[C16.*] prunner.*/ensures[defs] prunner.(*PipelineRunner).resolveDequeueJobAction/ensures[C03.dequeueDecision] prunner/writers[PipelineJob.Tasks] prunner/writers[PipelineJob.Env] prunner/writers[PipelineJob.Variables] prunner/writers[PipelineJob.StartDelay] prunner/writers[PipelineRunner.defs] prunner.*/call-pre[(*PipelineRunner).startJob.timerDone]* prunner.buildJobTasks/* prunner.toStatus/ensures* prunner.buildPipelineGraph/assert[C02.stages] prunner.buildPipelineGraph/loop*
 //@ property C02: prunner.*/call-pre[(*PipelineRunner).startJob.notStarted]* prunner/writers[PipelineJob.Start] prunner.(*PipelineRunner).startJob/ensures[graphError] prunner.(*PipelineRunner).startJob/ensures[T] prunner.*/assert[C01.order] prunner.*/assert[C04.cancelMeansError] prunner.*/call-pre[(*PipelineRunner).startJob.offList]* prunner.(*PipelineRunner).startJobsOnWaitList/* prunner.buildPipelineGraph/*
